@@ -24,12 +24,14 @@ def coreInt (s : Str) : Option Int :=
   | '+' :: ds => if !ds.isEmpty && ds.all isDec then some (valBase 10 ds) else none
   | ds => if !ds.isEmpty && ds.all isDec then some (valBase 10 ds) else none
 
-/-- `[-+]? ( \. [0-9]+ | [0-9]+ ( \. [0-9]* )? ) ( [eE] [-+]? [0-9]+ )?` with its decimal value -/
-def coreDecFloat (s : Str) : Option FloatDen :=
-  let (neg, r) := match s with
-    | '-' :: r => (true, r)
-    | '+' :: r => (false, r)
-    | r => (false, r)
+/-- `[-+]?` -/
+def optSign : Str → Bool × Str
+  | '-' :: r => (true, r)
+  | '+' :: r => (false, r)
+  | r => (false, r)
+
+/-- `( \. [0-9]+ | [0-9]+ ( \. [0-9]* )? ) ( [eE] [-+]? [0-9]+ )?` with its decimal value -/
+def decBody (neg : Bool) (r : Str) : Option FloatDen :=
   let ip := r.takeWhile isDec
   let r1 := r.dropWhile isDec
   let mant? : Option (Str × Str × Str) :=
@@ -47,15 +49,17 @@ def coreDecFloat (s : Str) : Option FloatDen :=
     | [] => some (.fin neg m e0)
     | e :: t =>
       if e == 'e' || e == 'E' then
-        let (en, ds) := match t with
-          | '-' :: ds => (true, ds)
-          | '+' :: ds => (false, ds)
-          | ds => (false, ds)
-        if !ds.isEmpty && ds.all isDec then
-          let ev : Int := valBase 10 ds
-          some (.fin neg m (e0 + (if en then -ev else ev)))
+        let ex := optSign t
+        if !ex.2.isEmpty && ex.2.all isDec then
+          let ev : Int := valBase 10 ex.2
+          some (.fin neg m (e0 + (if ex.1 then -ev else ev)))
         else none
       else none
+
+/-- `[-+]? ( \. [0-9]+ | [0-9]+ ( \. [0-9]* )? ) ( [eE] [-+]? [0-9]+ )?` with its decimal value -/
+def coreDecFloat (s : Str) : Option FloatDen :=
+  let nr := optSign s
+  decBody nr.1 nr.2
 
 def coreFloat (s : Str) : Option FloatDen :=
   let str := String.ofList s
